@@ -247,6 +247,21 @@ var scenarios = []scenario{
 		w.f.Get("/t/{p}", func(c flamego.Context) string { return "other" })
 		return w
 	}},
+	{Name: "status-and-body-handlers(built-in-fast-path)-on-every-thread", Build: func(n int) *world {
+		w := newWorld(planFor(n, func(t int) []reqSpec { return []reqSpec{{"GET", fmt.Sprintf("/t%d", t), nil}} }))
+		for t := 0; t < n; t++ {
+			t := t
+			// func() (int, string): the handler type the framework wraps in its own fast invoker; a hook before
+			// the status goes out gives the other threads room between the two returned values being read
+			w.f.Get(fmt.Sprintf("/t%d", t), func(c flamego.Context) {
+				c.ResponseWriter().Before(func(flamego.ResponseWriter) { sched.Point() })
+			}, func() (int, string) {
+				sched.Point()
+				return 210 + t, fmt.Sprintf("body of thread %d", t)
+			})
+		}
+		return w
+	}},
 	{Name: "header-constrained", Build: func(n int) *world {
 		w := newWorld(planFor(n, func(t int) []reqSpec {
 			if t%2 == 0 {
